@@ -828,17 +828,10 @@ func checkSticky(r *Run, p *Prog) {
 			if sel, ok := res.(*ast.SelectorExpr); ok && sel.Sel.Name == "ErrStreamClosed" {
 				continue // returned on a closed serverClosed channel: stays closed
 			}
-			if o := objOf(fn, res); o != nil {
-				// a local error variable that may hold a decoded error
-				if rhs, _, d := varDefinedBy(fn, o); d {
-					if call, ok := ast.Unparen(rhs).(*ast.CallExpr); ok {
-						if f := CalleeFunc(fn, call); f != nil && f.Name() == "Decode" {
-							okStore = false
-							detail = "returns a decoded error held only in a local variable"
-						}
-					}
-				}
-			}
+			// anything else - a local error, a wrapped read or decode failure - is a failure
+			// the next call would not repeat: the terminal result would not be stable
+			okStore = false
+			detail = "returns " + types.ExprString(res) + ", which is neither the stored terminal field nor a condition that persists (ctx.Err(), a closed-stream sentinel)"
 		}
 		r.Ob("C14.R3.sticky", sp.pkg+"."+sp.recv+".Receive stores a decoded terminal error before returning it", p.Position(fn.Pos()), okStore && nDecoded > 0, fmt.Sprintf("%d return(s) of the stored field %s", nDecoded, detail))
 	}
